@@ -132,7 +132,7 @@ func runC04(c *ev.Ctx) {
 		L = 6
 		depthMax = 100000
 	}
-	c.Rule(fmt.Sprintf("Space 1: every string of <= %d tokens over a 27-token byte alphabet (brackets, quote, colon, comma, backslash, literal letters, digits, SP, LF, and 9 ill-formed/odd UTF-8 byte groups) to ParseList and ParseObject, and every string of <= %d tokens behind each opener of %q; nesting sweeps up to depth %d. Space 2: every proper byte prefix of String() of every tree (<=5 nodes over 9 leaves; <=4 nodes over bracket/quote/backslash/non-ASCII strings as values and keys). Space 3: every ill-formed UTF-8 group of %d kinds inserted at every byte offset strictly between the root brackets of those documents. Space 4: ParseFile vs ParseObject on every Space-1 text of <= 3 tokens and every object document, plus the unreadable-path menu. Non-trivial = distinct input that reaches a parser state machine (contains the root bracket the entry point looks for) and is longer than 2 bytes.", L, L-1, c04Openers[1:], depthMax, len(c04Bad)))
+	c.Rule(fmt.Sprintf("Space 1: every string of <= %d tokens over a 27-token byte alphabet (brackets, quote, colon, comma, backslash, literal letters, digits, SP, LF, and 9 ill-formed/odd UTF-8 byte groups) to ParseList and ParseObject, and every string of <= %d tokens behind each opener of %q; nesting sweeps up to depth %d. Space 2: every proper byte prefix of String() of every tree (<=5 nodes over 9 leaves; <=4 nodes over bracket/quote/backslash/non-ASCII strings as values and keys). Space 3: every ill-formed UTF-8 group of %d kinds inserted at every byte offset strictly between the root brackets of those documents. Space 4: ParseFile vs ParseObject on every Space-1 text of <= 3 tokens and every object document, every single byte 0x00-0xFF inserted at every offset of 3 object documents, line-ending rewrites (CRLF, CR, LF CR, CR CR LF, TAB), byte-order marks, files of 4095..1 MiB+1 bytes, plus the unreadable-path menu. Non-trivial = distinct input that reaches a parser state machine (contains the root bracket the entry point looks for) and is longer than 2 bytes.", L, L-1, c04Openers[1:], depthMax, len(c04Bad)))
 	c.Assume("a call that does not return within 90 s on an input of < 1 MB is reported as non-termination", "nesting deeper than the sweep is limited by the goroutine stack, not by the library")
 	wd := newWatch(c, "total/non-termination")
 	defer wd.close()
@@ -344,6 +344,42 @@ func runC04(c *ev.Ctx) {
 		fileCase(w, text[:len(text)-1])
 		c.NontrivialH(ev.Hash("f" + text))
 	})
+	// ParseFile must see exactly the bytes of the file: every single byte 0x00-0xFF inserted at every offset of three
+	// object documents (compact, laid out over several lines, with escapes), line-ending rewrites, a byte-order mark,
+	// and files around the usual buffer sizes
+	{
+		bases := []string{`{"a":"xy","b":[1,{"c":null}]}`, "{\n \"a\": \"x\\ny\",\n \"b\": [\n  1.5,\n  true\n ]\n}\n", `{"k\"":"\u00e9\\"}`}
+		type fc struct{ text string }
+		par.Stream(c.Workers, stop, func(emit func(fc) bool) {
+			for _, b := range bases {
+				for off := 0; off <= len(b); off++ {
+					for x := 0; x < 256; x++ {
+						if !emit(fc{b[:off] + string([]byte{byte(x)}) + b[off:]}) {
+							return
+						}
+					}
+				}
+				for _, rw := range [][2]string{{"\n", "\r\n"}, {"\n", "\r"}, {"\n", "\n\r"}, {" ", "\t"}, {"\n", "\r\r\n"}} {
+					emit(fc{strings.ReplaceAll(b, rw[0], rw[1])})
+					emit(fc{"\r" + b + "\r"})
+				}
+				emit(fc{"\xef\xbb\xbf" + b})
+				emit(fc{"\xff\xfe" + b})
+				for _, n := range []int{4095, 4096, 4097, 65535, 65536, 65537, 1<<20 + 1} {
+					pad := n - len(b) - 8
+					if pad < 0 {
+						continue
+					}
+					emit(fc{`{"pad":"` + strings.Repeat("p", pad) + `",` + b[1:]})
+					emit(fc{strings.Repeat(" ", pad) + b})
+					emit(fc{b + strings.Repeat("\n", pad)})
+				}
+			}
+		}, func(w int, k fc) {
+			fileCase(w, k.text)
+			c.NontrivialH(ev.Hash("fb" + k.text))
+		})
+	}
 	// environment menu
 	os.Mkdir(filepath.Join(dir, "adir"), 0o755)
 	os.Symlink(filepath.Join(dir, "nowhere"), filepath.Join(dir, "dangling"))
